@@ -15,6 +15,7 @@ def main (args : List String) : IO UInt32 := do
   | ["rwmutex-spec"] => loop stdin stdout RWMutexSpecD.stepSpec []; return 0
   | ["engine-spec"] => loop stdin stdout EngineSpec.step {}; return 0
   | ["locktable-spec"] => loop stdin stdout LockSpec.step {}; return 0
+  | ["formats-spec"] => loop stdin stdout EngineSpec.step {}; return 0
   | ["crash-spec"] => loop stdin stdout EngineSpec.step {}; return 0
   | ["import-spec"] => loop stdin stdout EngineSpec.step {}; return 0
   | ["replica-spec"] => loop stdin stdout EngineSpec.step {}; return 0
